@@ -639,7 +639,7 @@ func (ex *Exec) mapDelete(st *State, m *types.Map, mv, k Term) {
 	// a key that is still present keeps the length positive (instantiated at the candidate keys of this VC)
 	md2 := ex.get(st, compMapDom(m), arraySort(SInt, arraySort(ks, SBool)))
 	ml2 := ex.get(st, compMapLen(m), arraySort(SInt, SInt))
-	for _, c := range ex.instCands[ks] {
+	for _, c := range ex.instCands[candClass(ks, m.Key())] {
 		ex.assume(st, implies(and(not(eq(mv, intLit(0))), sel(sel(md2, mv), c)), app(SBool, ">=", sel(ml2, mv), intLit(1))))
 	}
 }
